@@ -417,6 +417,13 @@ func deathSite(tail string) string {
 func report(p *Prop, env *Env, m *Merged, wall time.Duration) int {
 	known := loadKnown(env.VerifDir)
 	replayDir := filepath.Join(env.VerifDir, "replays")
+	evidenceDir := filepath.Join(env.VerifDir, "evidence")
+	if d := os.Getenv("VERIF_OUT_DIR"); d != "" {
+		// Runs against a scratch copy of the repository (mutants) must not
+		// overwrite the evidence of the real tree.
+		replayDir = filepath.Join(d, "replays")
+		evidenceDir = filepath.Join(d, "evidence")
+	}
 	_ = os.MkdirAll(replayDir, 0o755)
 
 	seenSig := map[string]bool{}
@@ -502,8 +509,8 @@ func report(p *Prop, env *Env, m *Merged, wall time.Duration) int {
 		"violations":  nViol,
 	}
 	b, _ := json.MarshalIndent(ev, "", " ")
-	_ = os.MkdirAll(filepath.Join(env.VerifDir, "evidence"), 0o755)
-	_ = os.WriteFile(filepath.Join(env.VerifDir, "evidence", p.ID+".json"), append(b, '\n'), 0o644)
+	_ = os.MkdirAll(evidenceDir, 0o755)
+	_ = os.WriteFile(filepath.Join(evidenceDir, p.ID+".json"), append(b, '\n'), 0o644)
 
 	evs := &bytes.Buffer{}
 	for _, k := range sortedKeys(m.Events) {
